@@ -294,3 +294,12 @@ def run(ck):
     r0 = [df.rvalue_expr(build, dd[3]["rv"]) for dd in df.defs_of(build).all(0) if dd[0] == "stmt" and not build.blocks[dd[1]]["cleanup"]]
     ck.require(len(r0) == 1 and is_field_of_self(r0[0], mp), "C07-R5", "build returns the rewritten name map",
                "build returns %s" % [df.show(e, 80) for e in r0], build.where())
+
+    # the caller hands over every relation: a related name is omitted only for single-named file patches (shared with C06-R8)
+    from . import c06
+    from ..common import A, calls_named
+    par = ck.anchor(A["par"])
+    if par is not None:
+        adds = calls_named(par, "FilenameDistributor::<T>::add")
+        ck.floor("C07-R5", "FilenameDistributor::add calls in the parallel driver", len(adds), 1)
+        c06.related_names_registered(ck, par, adds, "C07-R5")
